@@ -105,7 +105,7 @@ Decode(w, decoder) ==
       reject(why) == [ok |-> FALSE, stage |-> why, type |-> "none"]
   IN
   \* generic: FindTag first (needs a map at index 1 with a ucan/ key among the first two entries)
-  IF w.outer \in {"list1", "map"} THEN reject("inspect:outer")
+  IF w.outer \in {"list1", "map", "list3"} THEN reject("inspect:outer")
   ELSE IF decoder = "generic" /\ w.tag \notin {"dlg", "inv"} THEN reject("findtag")
   ELSE IF w.sig.q = "string" THEN reject("inspect:sig")
   ELSE IF w.extra # "none" THEN reject("inspect:entries")
